@@ -357,3 +357,154 @@ Proof.
     + dmatch H. inversion H; subst. apply dirs_plain in E0. destruct E0 as (pd & -> & Hpd).
       exists (t :: pd). split; [reflexivity|]. intros s0 Hs0. apply SelOK_spread; assumption.
 Qed.
+
+(* ---- definitions and documents ---- *)
+Open Scope Z_scope.
+Definition DocOK (l : list definition) (pre : list ptoken) : Prop :=
+  (forall st, l_local st = 0 ->
+     l_local (lrun true pre st) = 0 /\ l_fields st + doc_fields l <= l_fields (lrun true pre st))
+  /\ DepthOK (doc_depth l) pre.
+
+Lemma DocOK_nil : DocOK [] [].
+Proof. split; [intros st H; simpl; lia|apply DepthOK_state; apply StateOK_nil]. Qed.
+
+Lemma DocOK_cons : forall d hdr sub l rest, Plain hdr -> SetOK (def_sels d) sub -> DocOK l rest ->
+  DocOK (d :: l) (hdr ++ sub ++ rest).
+Proof.
+  intros d hdr sub l rest [H1 H2] [S1 S2] [D1 D2]. split.
+  - intros st Hst. rewrite !lrun_app.
+    destruct (H1 st) as (A1 & A2 & _); [lia|].
+    destruct (S1 (lrun true hdr st)) as (B1 & B2 & _); [lia|].
+    destruct (D1 (lrun true sub (lrun true hdr st))) as (C1 & C2); [lia|].
+    simpl doc_fields. split; lia.
+  - simpl doc_depth. apply DepthOK_after; [exact H2|]. apply DepthOK_max; assumption.
+Qed.
+
+Lemma operation_shape : forall f k ts d r, parse_operation f k ts = Ok d r ->
+  exists hdr sub, ts = hdr ++ sub ++ r /\ Plain hdr /\ SetOK (def_sels d) sub.
+Proof.
+  intros f k ts d r H. unfold parse_operation in H.
+  (* optional name *)
+  assert (Hn : exists pn r1, ts = pn ++ r1 /\ Plain pn /\
+     (let '(nm, r1') := match ts with
+                        | t :: r => if is_kind KIdent t then (Some (plit t), r) else (None, ts)
+                        | [] => (None, ts) end in r1' = r1)).
+  { destruct ts as [|t r0]; [exists [], []; splits; [reflexivity|apply Plain_nil|reflexivity]|].
+    destruct (is_kind KIdent t) eqn:E.
+    - apply is_kind_eq in E. exists [t], r0. splits; [reflexivity|eapply Plain_tok_kind; [eassumption|reflexivity]|reflexivity].
+    - exists [], (t :: r0). splits; [reflexivity|apply Plain_nil|reflexivity]. }
+  destruct Hn as (pn & r1 & -> & Hpn & Hr1).
+  destruct (match pn ++ r1 with
+            | t :: r => if is_kind KIdent t then (Some (plit t), r) else (None, pn ++ r1)
+            | [] => (None, pn ++ r1) end) as [nm r1'] eqn:En. subst r1'.
+  (* optional variable definitions *)
+  assert (Hv : forall vs r2,
+     match r1 with
+     | t :: r => if is_kind KLParen t then parse_vardefs f r [] else Ok [] r1
+     | [] => Ok [] r1 end = Ok vs r2 -> exists pv, r1 = pv ++ r2 /\ Plain pv).
+  { intros vs r2 Hx. destruct r1 as [|t r0]; [inversion Hx; subst; exists []; split; [reflexivity|apply Plain_nil]|].
+    destruct (is_kind KLParen t) eqn:E.
+    - apply is_kind_eq in E. apply vardefs_shape in Hx. destruct Hx as (p & -> & Hp & _).
+      exists (t :: p). split; [reflexivity|apply Plain_cons; [rewrite E; reflexivity|assumption]].
+    - inversion Hx; subst. exists []. split; [reflexivity|apply Plain_nil]. }
+  dmatch H. destruct (Hv _ _ eq_refl) as (pv & Epv & Hpv). clear Hv E. subst r1.
+  dmatch H. apply dirs_plain in E. destruct E as (pd & -> & Hpd).
+  dmatch H. inversion H; subst. apply (proj1 (sel_shape f)) in E. destruct E as (ps & -> & Hset & _ & _).
+  exists (pn ++ pv ++ pd), ps. splits.
+  - rewrite <- !app_assoc. reflexivity.
+  - apply Plain_app; [assumption|apply Plain_app; assumption].
+  - exact Hset.
+Qed.
+
+Lemma fragment_shape : forall f ts d r, parse_fragment f ts = Ok d r ->
+  exists hdr sub, ts = hdr ++ sub ++ r /\ Plain hdr /\ SetOK (def_sels d) sub.
+Proof.
+  intros f ts d r H. unfold parse_fragment in H.
+  destruct ts as [|n [|o [|t r0]]]; try discriminate H.
+  dmatch H. apply andb_prop in E. destruct E as [E E3]. apply andb_prop in E. destruct E as [E1 E2].
+  apply is_kind_eq in E1. apply is_kind_eq in E3. unfold is_on in E2. apply andb_prop in E2. destruct E2 as [E2 _].
+  apply is_kind_eq in E2.
+  dmatch H. apply dirs_plain in E. destruct E as (pd & -> & Hpd).
+  dmatch H. inversion H; subst. apply (proj1 (sel_shape f)) in E. destruct E as (ps & -> & Hset & _ & _).
+  exists (n :: o :: t :: pd), ps. splits; [reflexivity| |exact Hset].
+  apply Plain_cons; [rewrite E1; reflexivity|]. apply Plain_cons; [rewrite E2; reflexivity|].
+  apply Plain_cons; [rewrite E3; reflexivity|assumption].
+Qed.
+
+Lemma defs_shape : forall fuel ts acc doc r, parse_defs fuel ts acc = Ok doc r ->
+  r = [] /\ exists more, doc = rev acc ++ more /\ DocOK more ts.
+Proof.
+  induction fuel as [|f IH]; intros ts acc doc r H; [discriminate H|].
+  cbn [parse_defs] in H. destruct ts as [|t r0].
+  { inversion H; subst. split; [reflexivity|]. exists []. split; [rewrite app_nil_r; reflexivity|apply DocOK_nil]. }
+  assert (Cont : forall (x : res definition) hd,
+     Plain hd ->
+     match x with
+     | Ok d r' => parse_defs f r' (d :: acc)
+     | Err => Err | Unsup => Unsup | Oof => Oof end = Ok doc r ->
+     (forall d r', x = Ok d r' -> exists hdr sub, r0 = hdr ++ sub ++ r' /\ Plain hdr /\ SetOK (def_sels d) sub) ->
+     r = [] /\ exists more, doc = rev acc ++ more /\ DocOK more (hd ++ r0)).
+  { intros x hd Hhd Hx Hs. destruct x as [d r'| | |]; try discriminate Hx.
+    destruct (Hs d r' eq_refl) as (hdr & sub & -> & Hh & Hset).
+    apply IH in Hx. destruct Hx as (-> & more & -> & Hdoc). split; [reflexivity|].
+    exists (d :: more). split; [simpl; rewrite <- app_assoc; reflexivity|].
+    replace (hd ++ hdr ++ sub ++ r') with ((hd ++ hdr) ++ sub ++ r') by (rewrite <- app_assoc; reflexivity).
+    apply DocOK_cons; [apply Plain_app; assumption|assumption|assumption]. }
+  dmatch H.
+  { (* anonymous query *)
+    dmatch H. apply (proj1 (sel_shape f)) in E0. destruct E0 as (ps & Eq & Hset & _ & _).
+    apply IH in H. destruct H as (-> & more & -> & Hdoc). split; [reflexivity|].
+    eexists (_ :: more). split; [simpl; rewrite <- app_assoc; reflexivity|].
+    rewrite Eq. change (ps ++ rest) with ([] ++ ps ++ rest).
+    apply DocOK_cons; [apply Plain_nil|exact Hset|assumption]. }
+  dmatch H. dmatch H. apply is_kind_eq in E1.
+  assert (Ht : Plain [t]) by (eapply Plain_tok_kind; [eassumption|reflexivity]).
+  destruct (opkind_of (keyword_of (plit t))) as [k|] eqn:Ek.
+  - apply (Cont _ [t] Ht H). intros d r' Hx. apply operation_shape in Hx. exact Hx.
+  - destruct (keyword_of (plit t)) eqn:Ekw; try discriminate H;
+      try (simpl in H; discriminate H).
+    apply (Cont _ [t] Ht H). intros d r' Hx. apply fragment_shape in Hx. exact Hx.
+Qed.
+
+(* ---- the limit theorems on token streams ---- *)
+Lemma parse_docok : forall ts d r, parse ts = Ok d r -> r = [] /\ DocOK d ts.
+Proof.
+  intros ts d r H. unfold parse in H. apply defs_shape in H.
+  destruct H as (-> & more & -> & Hd). split; [reflexivity|exact Hd].
+Qed.
+
+(* depth: for the repaired AND the historical accounting *)
+Theorem limits_depth_sound_proof : forall fx L F ts d r,
+  parse (strip ts) = Ok d r -> 0 < L -> L < doc_depth d ->
+  fst (fst (lim_run fx L F ts linit)) <> LOk.
+Proof.
+  intros fx L F ts d r Hp HL Hd Hv.
+  destruct (lim_run fx L F ts linit) as [[v a] b] eqn:Hr. simpl in Hv. subst v.
+  rewrite <- lim_run_strip in Hr.
+  apply parse_docok in Hp. destruct Hp as [_ [_ [D1 _]]].
+  specialize (D1 fx L F linit [] a b HL). rewrite app_nil_r in D1.
+  simpl in D1. specialize (D1 ltac:(lia) ltac:(lia) Hr). lia.
+Qed.
+
+(* fields: for the repaired accounting *)
+Theorem limits_fields_sound_proof : forall L F ts d r,
+  parse (strip ts) = Ok d r -> 0 < F -> F < doc_fields d ->
+  fst (fst (lim_run true L F ts linit)) <> LOk.
+Proof.
+  intros L F ts d r Hp HF Hd Hv.
+  destruct (lim_run true L F ts linit) as [[v a] b] eqn:Hr. simpl in Hv. subst v.
+  rewrite <- lim_run_strip in Hr.
+  apply parse_docok in Hp. destruct Hp as [_ [D1 _]].
+  destruct (lim_run_fields _ _ _ _ _ _ _ Hr) as [Eb Hle].
+  destruct (D1 linit eq_refl) as [_ Hf]. simpl in Hf, Hle.
+  specialize (Hle HF ltac:(lia)). lia.
+Qed.
+
+Theorem limits_sound_proof : forall L F ts d r,
+  parse (strip ts) = Ok d r -> exceeds L F d ->
+  fst (fst (lim_run true L F ts linit)) <> LOk.
+Proof.
+  intros L F ts d r Hp [[H1 H2]|[H1 H2]].
+  - eapply limits_depth_sound_proof; eassumption.
+  - eapply limits_fields_sound_proof; eassumption.
+Qed.
